@@ -233,36 +233,6 @@ def correspondence_values(ctx, rng, exc_hits):
 # search: the property evaluated on the implementation
 # ---------------------------------------------------------------------------
 
-def hankel_cond(shape, row, col, W, orders, odd, meth, sin, rmax):
-    """Condition number of the normal (Hankel) matrix of every radius,
-    computed from the unfolded image pixels (independent of the folding)."""
-    r, cos = L.polar(shape, row, col)
-    x = cos if odd else cos * cos
-    wt = np.ones(shape) if W is None else W
-    if sin:
-        with np.errstate(all='ignore'):
-            s = np.where(r > 0, np.abs(np.arange(shape[1])[None, :] - col) / np.where(r > 0, r, 1), 1.0)
-        wt = wt * s
-    N = len(orders)
-    conds = np.full(rmax + 1, np.inf)
-    if meth == 'nearest':
-        parts = [(np.rint(r).astype(int), wt)]
-    else:
-        fl = np.floor(r).astype(int)
-        parts = [(fl, wt * (1 - (r - fl))), (fl + 1, wt * (r - fl))]
-    for k in range(rmax + 1):
-        H = np.zeros((N, N))
-        for b, ww in parts:
-            m = (b == k)
-            if m.any():
-                xs, ws = x[m], ww[m]
-                P = np.array([np.sum(ws * xs ** p) for p in range(2 * N - 1)])
-                H += np.array([[P[i + j] for j in range(N)] for i in range(N)])
-        if np.all(np.isfinite(H)) and np.linalg.matrix_rank(H) == N:
-            conds[k] = np.linalg.cond(H)
-    return conds
-
-
 SNIPPET_MODEL = '''
 import json, sys, warnings
 import numpy as np
@@ -397,7 +367,7 @@ def search_model(ctx, rng, budget):
         exp = np.array([(np.asarray(c)[:rmax + 1] if np.ndim(c) else np.full(rmax + 1, c)) for c in coef])
         if exp.shape[1] < rmax + 1:
             exp = np.pad(exp, ((0, 0), (0, rmax + 1 - exp.shape[1])))
-        conds = hankel_cond((h, w), row, col, W, orders, odd_r, meth, sin, rmax)
+        conds = L.hankel_cond((h, w), row, col, W, orders, odd_r, meth, sin, rmax)
         radii = [int(k) for k in range(rmax + 1) if conds[k] <= 1e8]
         n_radii += len(radii)
         if len(samples) < 5:
